@@ -29,6 +29,8 @@ def main(tier, seed, replay):
         k.validate_profile("rel_vis", 100, known=("F17",))
         k.validate_profile("kf_f17", 1, known=("F17",))
         k.replay_behaviours("TLC_walks", mc_consts(kinds=("spawn", "despawn", "insert", "remove", "mark", "unmark"), ents=("e1", "e2"), clients=("c1", "c2"), ops=8, ticks=6, idle=3, cframes=8), 150, depth=80)
+        k.replay_behaviours("EXH_Struct", mc_consts(ops=3, **dict(struct, idle=1, cframes=0)), 0, invariants=inv)
+        k.replay_behaviours("EXH_Rel", mc_consts(ops=3, **dict(REL, cframes=0)), 0, invariants=inv, known=("F17",))
     else:
         k.model_check("MC_Struct", mc_consts(ops=5, **struct), inv, props, timeout=3000)
         k.model_check("MC_Struct2", mc_consts(ents=("e1", "e2"), ops=4, kinds=("spawn", "despawn", "insert", "remove"), ticks=2, idle=1), inv, props, timeout=3000)
@@ -52,6 +54,8 @@ def main(tier, seed, replay):
         k.validate_profile("rel_vis", 1500, known=("F17",))
         k.validate_profile("kf_f17", 1, known=("F17",))
         k.replay_behaviours("TLC_walks", mc_consts(kinds=("spawn", "despawn", "insert", "remove", "mark", "unmark"), ents=("e1", "e2"), clients=("c1", "c2"), ops=8, ticks=6, idle=3, cframes=8), 1500, depth=80)
+        k.replay_behaviours("EXH_Struct", mc_consts(ops=4, **dict(struct, idle=1, cframes=0)), 0, invariants=inv, timeout=3000)
+        k.replay_behaviours("EXH_Rel", mc_consts(ops=4, **dict(REL, cframes=0)), 0, invariants=inv, known=("F17",), timeout=3000)
         k.replay_behaviours("TLC_walks3", mc_consts(kinds=("spawn", "despawn", "insert", "remove", "mutate"), ents=("e1", "e2", "e3"), clients=("c1", "c2"), ops=10, ticks=8, idle=3, cframes=10), 1000, depth=100)
     k.selftest(tr)
     return k.finish(assumptions=[
